@@ -557,6 +557,23 @@ def _sum(x, axis=None, keepdims=False, **k):
 def _max(x, *a, **k): return x.max(*a, **k)
 
 
+@implements(np.vdot)
+def _vdot(x, y):
+    a = unwrap(x); b = unwrap(y)
+    s = x if isinstance(x, SymArray) else y
+    if s.dom.name == 'alg':
+        import sympy as sp
+        t = 0
+        for p, q in zip(np.ravel(a), np.ravel(b)):
+            t = t + sp.conjugate(p) * q
+    else:
+        t = 0
+        for p, q in zip(np.ravel(a), np.ravel(b)):
+            t = t + p * q
+    z = np.empty((), dtype=object); z[()] = t
+    return SymArray(z, s._dt, s.dom)
+
+
 @implements(np.trace)
 def _trace(x, offset=0, axis1=0, axis2=1, **k):
     a = unwrap(x)
